@@ -98,6 +98,20 @@ class C12(Prop):
             out.append({'mode': mode, 'latency': 0.01, 'fail': 'refused', 'poll': 1, 'ports': p1, 'steps': [
                 ['down'], ['await_offline'], ['mvalue', 'p1', 9], ['rfail', 'p1'], ['wait', 3], ['up'], ['await_online'],
                 ['rvalue', 'p1', 12], ['rattr', 'p1', 'display_name', 'n'], ['wait', 2], ['check']]})
+        # KNOWN FINDING C12-poll-unacknowledged-push-stale-mirror (polling only): the push of a value written while
+        # offline is applied by the device but its answer is lost / is refused while the device's value happens to be
+        # the written one: the master keeps showing the value read before the outage (5), the slave has 9
+        out.append({'mode': 'poll', 'latency': 0.01, 'fail': 'refused', 'poll': 1, 'ports': p1, 'steps': [
+            ['check'], ['down'], ['await_offline'], ['mvalue', 'p1', 9], ['rdrop', 'p1'], ['wait', 3], ['up'],
+            ['await_online'], ['wait', 5], ['check'], ['wait', 30], ['check']]})
+        out.append({'mode': 'poll', 'latency': 0.01, 'fail': 'refused', 'poll': 1, 'ports': p1, 'steps': [
+            ['check'], ['down'], ['await_offline'], ['mvalue', 'p1', 9], ['rvalue', 'p1', 9], ['rfail', 'p1'],
+            ['wait', 3], ['up'], ['await_online'], ['wait', 5], ['check'], ['wait', 30], ['check']]})
+        # the same two in listening mode: the reconnect refresh queues the fetched value, the mirror converges
+        for kind in ([['rdrop', 'p1']], [['rvalue', 'p1', 9], ['rfail', 'p1']]):
+            out.append({'mode': 'listen', 'latency': 0.01, 'fail': 'refused', 'poll': 1, 'ports': p1, 'steps': [
+                ['check'], ['down'], ['await_offline'], ['mvalue', 'p1', 9]] + kind + [['wait', 3], ['up'],
+                ['await_online'], ['wait', 5], ['check']]})
         return out
 
     def gen(self, rng, tier):
@@ -280,7 +294,35 @@ class C12(Prop):
         return fail, {'tags': sorted(tags), 'key': key, 'observed': observed}
 
     def known_match(self, finding, case, failure):
-        return False
+        # C12-poll-unacknowledged-push-stale-mirror: poll mode, port P written through the master during an outage, and
+        # before the 'up' the push of P is made to lose its answer (rdrop P) or is refused (rfail P) while the device's
+        # own value of P equals the written value; the master then shows a stale VALUE for exactly that port
+        if finding.get('id') != 'C12-poll-unacknowledged-push-stale-mirror' or failure.kind != 'property':
+            return False
+        if case.get('mode') != 'poll' or failure.where != 'value':
+            return False
+        dev = {p['id']: p['value'] for p in case['ports']}      # the device's own values along the script
+        down, written, hit = False, {}, set()
+        for st in sc.flat_steps(case):
+            if st[0] == 'rvalue':
+                dev[st[1]] = st[2]
+            elif st[0] in ('rremove',):
+                dev.pop(st[1], None)
+            elif st[0] == 'radd':
+                dev.setdefault(st[1], st[3])
+            elif st[0] == 'down':
+                down, written, faults = True, {}, {}
+            elif st[0] == 'mvalue' and down:
+                written[st[1]] = st[2]
+            elif st[0] in ('rdrop', 'rfail') and down:
+                faults[st[1]] = st[0]
+            elif st[0] == 'up' and down:
+                for pid, v in written.items():
+                    if faults.get(pid) == 'rdrop' or (faults.get(pid) == 'rfail' and pid in dev and dev[pid] == v
+                                                      and type(dev[pid]) is type(v)):
+                        hit.add(pid)
+                down = False
+        return any(f'port {pid}: master value' in failure.detail for pid in hit)
 
 
 PROP = C12
